@@ -1395,7 +1395,7 @@ class UnitQuaternion(Quaternion):
             # null rotation, the axis is undefined
             return cls()
         s = math.cos(theta / 2)
-        v = math.sin(theta / 2) * base.unitvec(w)
+        v = math.sin(theta / 2) * w / theta
         return cls(s=s, v=v, check=False)
 
     @classmethod
